@@ -251,6 +251,8 @@ func g5Simultaneous() []BashCase {
 		"swap-globals-in-func": {def("ga", il(1)), def("gb", il(2)), fn("sw", nil, nil, Assign{[]string{"ga", "gb"}, []Expr{vr("gb"), vr("ga")}}), callS("sw"), pr(vr("ga"), vr("gb"))},
 		"expr-both-sides":      {def("a", il(3)), def("b", il(4)), Assign{[]string{"a", "b"}, []Expr{bin("+", vr("a"), vr("b")), bin("-", vr("a"), vr("b"))}}, pr(vr("a"), vr("b"))},
 		"independent":          {def("a", il(3)), def("b", il(4)), Assign{[]string{"a", "b"}, []Expr{il(7), il(8)}}, pr(vr("a"), vr("b"))},
+		"callee-with-own-multi-assign": {fn("sw", []Param{{"a", TInt}, {"b", TInt}}, []Type{TInt}, Assign{[]string{"a", "b"}, []Expr{vr("b"), vr("a")}}, ret(bin("+", bin("*", vr("a"), il(10)), vr("b")))), def("x", il(2)), def("y", il(5)), Assign{[]string{"x", "y"}, []Expr{vr("y"), call("sw", il(3), il(4))}}, pr(vr("x"), vr("y")), VarDecl{Names: []string{"p", "q"}, Short: true, Values: []Expr{bin("+", vr("x"), il(2)), call("sw", vr("x"), vr("y"))}}, pr(vr("p"), vr("q"))},
+		"callee-multi-assign-nested":   {fn("inner", []Param{{"a", TInt}}, []Type{TInt}, VarDecl{Names: []string{"u", "v"}, Short: true, Values: []Expr{bin("+", vr("a"), il(1)), bin("+", vr("a"), il(2))}}, ret(bin("*", vr("u"), vr("v")))), fn("outer", []Param{{"a", TInt}}, []Type{TInt, TInt}, VarDecl{Names: []string{"m", "n"}, Short: true, Values: []Expr{vr("a"), call("inner", vr("a"))}}, ret(vr("m"), vr("n"))), VarDecl{Names: []string{"r1", "r2"}, Short: true, Values: []Expr{call("outer", il(3))}}, def("k", il(1)), def("l", il(2)), Assign{[]string{"k", "l"}, []Expr{bin("+", vr("l"), il(10)), call("inner", vr("k"))}}, pr(vr("r1"), vr("r2"), vr("k"), vr("l"))},
 		"define-from-others":   {def("a", il(3)), def("b", il(4)), VarDecl{Names: []string{"c", "d"}, Short: true, Values: []Expr{vr("b"), vr("a")}}, pr(vr("c"), vr("d"))},
 	}
 	cases := []BashCase{}
